@@ -14,7 +14,7 @@ DRIVERS = ["syn"]
 ALPHA = list('aZ_9.-/ \n\r"\\:[],<>{}$#\u00a7\u2192\u2295\u29fa\u21cc\u2227\u2228@~|&+%=`;()\t!\u00e9') + \
     ['\u0301', '\U0001F600', '\x01', 'true', 'false', 'null', 'vs', '//', '::', '->', '<->', '===', 'n', 't']
 POSITIONS = ("assign", "meta", "list", "map")
-FINDING_OF_CLASS = {1: "C04-escape-order", 3: "C04-reserved-segment", 4: "C04-annotation-qualifier"}
+FINDING_OF_CLASS = {3: "C04-reserved-segment", 4: "C04-annotation-qualifier"}
 
 
 def build_doc(v, pos, key):
@@ -186,6 +186,18 @@ def run(ctx):
             m_class_f[s] = int(res[4 * i + 3])
     from octave_mcp.core.emitter import emit_value
     emitted_docs = []
+    # ---- regressions of repaired defects (corpus/C04): every listed value must survive in all four positions ----
+    import json as _json
+    from pathlib import Path as _Path
+    for cf in sorted((_Path(__file__).resolve().parents[2] / "corpus" / "C04").glob("*.json")):
+        for v in _json.loads(cf.read_text()).get("values", []):
+            for pos in POSITIONS:
+                for key in ("K", "PATTERN"):
+                    ctx.count()
+                    st, r, t = read_back(v, pos, key)
+                    if not (st == "OK" and same(v, r)):
+                        ctx.property_failure({"value": v, "position": pos, "key": key, "emitted": t, "status": st, "read_back": repr(r),
+                                              "corpus": cf.name}, f"string scalar does not survive emit/parse ({st}) (corpus {cf.name})")
     # ---- known finding witnesses ----
     for fid, f in ctx.known.items():
         w = f["witness"]
